@@ -272,9 +272,9 @@ def watercare(sx):
     if mode is not None:
         s = wc.__str__()
         if bool(mode < 5):
-            sx.check(s == f"WaterCare: {GeckoConstants.WATERCARE_MODE_STRING[int(mode)]}", "wc.known-mode-text")
+            sx.check(GeckoConstants.WATERCARE_MODE_STRING[int(mode)] in s, "wc.known-mode-text")     # (wording is free)
         else:
-            sx.check(_text(s).startswith("Unknown Water care mode"), "wc.unknown-mode-text")
+            sx.check("nknown" in _text(s), "wc.unknown-mode-text")
 
 
 def _text(s):
